@@ -32,21 +32,27 @@ CHECK = {
            'of exactly N output characters is produced in 11 ways (%Nd, %-Ns|%i, %.(N-2)f, %.Nd, N literal characters alone and before %d, %s and %$ of an '
            'N-character String, %-Nc, %N.3e, %#0Nx) at starts {0, 5, current length} into the heap String, a File over open_memstream and a File over tmpfile(), '
            'followed by a second print_to appended at the returned position; final content and both positions are compared with snprintf and the three sinks with each other. '
+           'Repeated arguments: every argument sequence of length 2..4 over three distinct objects x, y, z (117 sequences, incl. (x,x), (x,x,y), (x,y,x,z), (x,y,y)) '
+           'in five styles (%$ of Int, %li, %s, %$ of String, mixed Int/String/Float with %li %s %5.2f %$), both sinks, starts {0, current length}; the i-th specification '
+           'must format the i-th argument (snprintf on the values; %$ pieces are show_to of a stand-alone object of the same value). '
+           'Sink recycling: all 27 sequences of three sinks out of {heap File wrapping an open FILE*, heap File opened with sopen, heap String} x 7 format rotations '
+           '(%d, %s, %5.2f, %$, literal, %%, mixed); each sink is created for one formatting (+ an appended follow-up) and released, the next one is created with nothing '
+           'formatted in between; text, prefix and both positions are checked and the evidence records how often the new sink received the released one\'s address. '
            'distinct_nontrivial = (specification, value) pairs whose C output differs from the output of the bare conversion '
            '(flags, width or precision change the text) + non-empty %$ scalar texts + container shapes with >= 2 elements + '
-           'too-few-argument cases in which an argument had already been consumed when FormatError was raised + ladder (form, N) pairs with N >= 64; each counted once (only by the gcc-built memstream instances)'),
+           'too-few-argument cases in which an argument had already been consumed when FormatError was raised + ladder (form, N) pairs with N >= 64 + argument sequences in which an object recurs and its second occurrence is followed by something other than what followed the first + recycled sinks that received the address of a released sink of the other type; each counted once (only by the gcc-built memstream instances)'),
   'bounds': {
     'quick': ('flags: all defined subsets; width {none,5}; precision {none,.3}; all length modifiers; Int values {0,-1,42,128,-129,32768,INT_MAX,INT_MIN} '
               '(+ {2^32, INT64_MAX, INT64_MIN} for l ll j z t); 11 Float values incl. +-0, +inf, denormal, 1e300; 6 Strings incl. empty and 40 chars; '
               '6 chars; 6 objects for %p/%$ (heap String, Type, NULL, Ref, Box, Range); 8 contexts x 3 starts x 2 sinks (File over open_memstream); '
               '158 container shapes (element value grids incl. values beyond int32, nested one level); too-few-arguments for every specification x context x smaller argument count x sink; '
               'ASan+UBSan and a tmpfile-backed File over the same specifications with the level-0 values and starts {0,len}; '
-              'length ladder N = 1..300 and 510..514, 1022..1026, 2046..2050, 4094..4098 (gcc and ASan+UBSan builds)'),
+              'length ladder N = 1..300 and 510..514, 1022..1026, 2046..2050, 4094..4098 (gcc and ASan+UBSan builds); 117 repeated-argument sequences x 5 styles; 27 x 7 sink-recycling sequences (gcc build reuses addresses, ASan build checks memory safety only)'),
     'thorough': ('flags: all defined subsets; width {none,1,5,12}; precision {none,.0,.3,.10}; all length modifiers; 14 Int values within int '
                  '(+5 beyond int for l ll j z t); 15 Float values incl. +-0, +-inf, nan, denormal, 1e300, 0.1, 123456.789, rounding ties; 6 Strings; '
                  '8 chars; 6 objects for %p/%$; 8 contexts x 3 starts x 2 sinks; 158 container shapes; too-few-arguments as in quick over the full '
                  'specification set; the whole grid is run three times: gcc build with File over open_memstream, clang ASan+UBSan build, '
-                 'gcc build with File over tmpfile(); length ladder N = 1..1100 and the neighbours of 2048, 4096, 8192 (gcc and ASan+UBSan builds)'),
+                 'gcc build with File over tmpfile(); length ladder N = 1..1100 and the neighbours of 2048, 4096, 8192 (gcc and ASan+UBSan builds); 117 repeated-argument sequences x 5 styles; 27 x 7 sink-recycling sequences (gcc build reuses addresses, ASan build checks memory safety only)'),
   },
   'assumptions': [
     'values outside the boundary grids are represented by the grids (exhaustive over the grammar and the grids, not over int64 / double)',
@@ -65,7 +71,11 @@ CHECK = {
          T('show-asan', 'asan', 'mode=show', 'grid=mid', 'count_nt=0'),
          T('missing-asan', 'asan', 'mode=missing', 'grid=small', 'count_nt=0'),
          T('ladder', 'base', 'mode=ladder', 'n=300', 'pmax=4096'),
-         T('ladder-asan', 'asan', 'mode=ladder', 'n=300', 'pmax=4096', 'count_nt=0')]
+         T('ladder-asan', 'asan', 'mode=ladder', 'n=300', 'pmax=4096', 'count_nt=0'),
+         T('repeat', 'base', 'mode=repeat'),
+         T('repeat-asan', 'asan', 'mode=repeat', 'count_nt=0'),
+         T('recycle', 'base', 'mode=recycle'),
+         T('recycle-asan', 'asan', 'mode=recycle', 'count_nt=0')]
       + grid_instances('small', 'asan', ['di', 'uoxX', 'fFeE', 'gGaA', 'csp$'], '-asan', ('count_nt=0',))
       + grid_instances('small', 'base', ['diuoxXcsp$', FLTS], '-tmpfile', ('file=tmpfile', 'count_nt=0'))
     ),
@@ -79,7 +89,11 @@ CHECK = {
          T('missing-int-asan', 'asan', 'mode=missing', 'grid=full', 'conv=' + INTS + 'csp$', 'count_nt=0'),
          T('missing-float-asan', 'asan', 'mode=missing', 'grid=full', 'conv=' + FLTS, 'count_nt=0'),
          T('ladder', 'base', 'mode=ladder', 'n=1100', 'pmax=8192'),
-         T('ladder-asan', 'asan', 'mode=ladder', 'n=1100', 'pmax=8192', 'count_nt=0')]
+         T('ladder-asan', 'asan', 'mode=ladder', 'n=1100', 'pmax=8192', 'count_nt=0'),
+         T('repeat', 'base', 'mode=repeat'),
+         T('repeat-asan', 'asan', 'mode=repeat', 'count_nt=0'),
+         T('recycle', 'base', 'mode=recycle'),
+         T('recycle-asan', 'asan', 'mode=recycle', 'count_nt=0')]
       + grid_instances('full', 'asan', list(INTS) + list(FLTS) + ['csp$'], '-asan', ('count_nt=0',))
       + grid_instances('full', 'base', ['d', 'i', 'uo', 'xX', 'csp$', 'fF', 'eE', 'gG', 'aA'], '-tmpfile', ('file=tmpfile', 'count_nt=0'))
     ),
